@@ -4,6 +4,7 @@ import copy, itertools, math, random
 import numpy as np
 import wire as W, ops as O, oracle as R, gen as G
 from framework import Run, batch_tie
+import framework as F_
 
 TOL_F = 2e-7      # float fields of pass results (acos near +-1 amplifies ulp differences to ~1e-8)
 TOL_OP = 1e-6     # operator distance accepted by the oracle (band snapping <= ~3e-7; real defects >= 1e-3)
@@ -609,7 +610,7 @@ def check_C06(run: Run):
         m = O.parse_pass(__import__("model").run_batch([O.req_replace(name, c, script)])[0])
         run.count({"replace": name, "c": c}, nontrivial=bool(matching), tag="replace")
         d = cmp_pass({"band": False}, r, m)
-        if d: run.mismatch("Circuit.replace: " + d, {"name": name, "c": c}, {"err": r["err"], "c": r["c"]}, m)
+        F_.record_tie(run, "Circuit.replace", d, {"name": name, "c": c}, {"err": r["err"], "c": r["c"]}, m)
         if r["err"] is not None: run.violation(f"replace({name}) with an exact rule raised {r['err']}", {"name": name, "c": c}); continue
         # expected: flatMap
         exp = []; it = iter(script)
@@ -638,7 +639,7 @@ def check_C06(run: Run):
         m = O.parse_pass(__import__("model").run_batch([O.req_dcustom(c, script)])[0])
         run.count({"empty-then-wrong": c, "script": script}, tag="empty-replacement")
         d = cmp_pass({"band": False}, r, m)
-        if d: run.mismatch("Circuit.decompose(custom, empty replacement): " + d, {"c": c, "script": script}, {"err": r["err"], "c": r["c"]}, m)
+        F_.record_tie(run, "Circuit.decompose(custom, empty replacement)", d, {"c": c, "script": script}, {"err": r["err"], "c": r["c"]}, m)
         if not okp and r["err"] is None:
             run.violation("a wrong proposal for the gate right after an empty replacement was not rejected", {"c": c, "script": script})
         # replace(I -> []) removes every I
@@ -667,7 +668,7 @@ def check_C06(run: Run):
         m = O.parse_pass(__import__("model").run_batch([O.req_dcustom(c, script)])[0])
         run.count({"dcustom": script, "c": c}, tag="fail-at-k")
         d = cmp_pass({"band": False}, r, m)
-        if d: run.mismatch("Circuit.decompose(custom): " + d, {"c": c, "script": script}, {"err": r["err"], "c": r["c"]}, m)
+        F_.record_tie(run, "Circuit.decompose(custom)", d, {"c": c, "script": script}, {"err": r["err"], "c": r["c"]}, m)
         out = r["c"]
         if not wire_wf(out): run.violation("circuit not well-formed after a rejected proposal", {"c": c, "script": script})
         ok, dist, why = R.equiv_stmts(c["stmts"], out["stmts"], TOL_OP * max(1, len(out["stmts"])))
